@@ -10,14 +10,17 @@
 (*   handler accepts and its key = Key(username, realm, password).          *)
 (* MAC and Key are uninterpreted and injective: the spec carries the        *)
 (* (secret, username) pair a password was derived from.                     *)
-(* The handler is built at time 0; credentials are minted later; time       *)
-(* passes in whole seconds (the handler compares whole seconds).            *)
+(* The handler is built at time 0; credentials are minted later.  Time and   *)
+(* durations are counted in tenths of a second: the generators stamp the    *)
+(* whole second of now + duration (floor, also for negative and fractional  *)
+(* durations) and the handlers compare whole seconds, so a credential is    *)
+(* good while the current second is not after the stamped one.              *)
 (***************************************************************************)
 EXTENDS Integers, Sequences, TLC, Json
 
 CONSTANTS Kinds,      \* {"lt", "rest"}
           Users,      \* user ids for the REST generator
-          Durs,       \* durations in seconds (negative and zero included)
+          Durs,       \* durations in tenths of a second (negative, zero and fractional seconds included)
           Ticks,      \* time steps
           Muts,       \* mutations of the presented pair
           MaxNow
@@ -29,8 +32,8 @@ NoCred == [minted |-> FALSE]
 Init == /\ kind \in Kinds /\ now = 0 /\ cred = NoCred /\ out = {} /\ last = [a |-> "Init"]
 
 Mint(user, dur) ==
-  /\ ~cred.minted /\ now <= 1
-  /\ cred' = [minted |-> TRUE, user |-> user, exp |-> now + dur]
+  /\ ~cred.minted /\ now <= 13
+  /\ cred' = [minted |-> TRUE, user |-> user, exp |-> (now + dur) \div 10]     \* the stamped second
   /\ out' = {} /\ last' = [a |-> "Mint", user |-> user, dur |-> dur]
   /\ UNCHANGED <<kind, now>>
 
@@ -41,12 +44,13 @@ Tick(d) ==
   /\ UNCHANGED <<kind, cred>>
 
 \* the decision table: only the untouched pair of this secret, while now <= exp
-Authenticates(mut) == mut = "none" /\ now <= cred.exp
+Sec == now \div 10
+Authenticates(mut) == mut = "none" /\ Sec <= cred.exp
 
 Present(mut) ==
   /\ cred.minted
   /\ out' = {[k |-> "verdict", ok |-> Authenticates(mut)]}
-  /\ last' = [a |-> "Present", mut |-> mut, left |-> cred.exp - now]
+  /\ last' = [a |-> "Present", mut |-> mut, left |-> cred.exp - Sec]
   /\ UNCHANGED <<kind, now, cred>>
 
 Next == (\E u \in Users, d \in Durs : Mint(u, d)) \/ (\E d \in Ticks : Tick(d)) \/ (\E m \in Muts : Present(m))
@@ -58,7 +62,7 @@ C17_Iff ==
   [][last'.a = "Present" =>
        out' = {[k |-> "verdict", ok |-> (last'.mut = "none" /\ last'.left >= 0)]}]_vars
 
-MCDurs == {-60, 0, 1, 2, 3}
+MCDurs == {-600, 0, 10, 20, 30, -4, 8, 25}
 MCMuts == {"none", "tsPlus1", "tsMinus1", "nonNumeric", "emptyUser", "leadingPlus", "leadingSpace", "extraColon",
            "pwOtherSecret", "pwTrimmedSecret", "pwOtherName", "pwFlip", "pwEmpty", "userSwap",
            "hexTs", "underscoreTs", "octalTs", "expTs"}
